@@ -308,7 +308,7 @@ def lifecycle(ctx, msel, SEL, world):
     # ---- O4 selection
     def run_sel(it, w):
         it.hooks.world = w
-        it.call(it.getattr(w["selector"], "_on_autonomous_enable"), [], {})
+        it.call(it.getattr(w["selector"], "start"), [], {})
         return w["selector"]
 
     ps = fn.all_paths(ctx, run_sel, hooks=lambda: LifeHooks(may_raise=False), world=world)
@@ -316,7 +316,7 @@ def lifecycle(ctx, msel, SEL, world):
     n4 = 0
     for p in ps:
         if p.outcome != "return":
-            ctx.fail("C14.O4", f"_on_autonomous_enable raises {fn.exc_name(p.value)} without any callback fault", site=site("_on_autonomous_enable"), key="C14.O4|raise")
+            ctx.fail("C14.O4", f"start() raises {fn.exc_name(p.value)} without any callback fault", site=site("start"), key="C14.O4|raise")
             continue
         s2 = p.value
         ms = next(v for v in s2.fields.values() if isinstance(v, DictV))
@@ -333,13 +333,13 @@ def lifecycle(ctx, msel, SEL, world):
                 if any(repr(k)[1:] in str(a) for a in match):
                     want = v
             ok = want is not None and active is want and chooser is None
-            ctx.require(ok, "C14.O4", "dashboard string names a mode -> that mode", "the dashboard's 'Auto Selector' string names a registered mode but another mode / the chooser selection becomes active", site=site("_on_autonomous_enable"), key="C14.O4|dash")
+            ctx.require(ok, "C14.O4", "dashboard string names a mode -> that mode", "the dashboard's 'Auto Selector' string names a registered mode but another mode / the chooser selection becomes active", site=site("start"), key="C14.O4|dash")
         else:
             opts = list(ms.items.values()) + [None]
             ok = chooser is not None and active is opts[chooser]
-            ctx.require(ok, "C14.O4", "otherwise the chooser selection", f"the dashboard string is {'absent' if dash_none else 'not a registered key'} but the active mode {active!r} is not the chooser's selection (choice {chooser} of {opts}; path {[(a[0], v) for a, v, _ in p.path]})", site=site("_on_autonomous_enable"), key="C14.O4|chooser")
+            ctx.require(ok, "C14.O4", "otherwise the chooser selection", f"the dashboard string is {'absent' if dash_none else 'not a registered key'} but the active mode {active!r} is not the chooser's selection (choice {chooser} of {opts}; path {[(a[0], v) for a, v, _ in p.path]})", site=site("start"), key="C14.O4|chooser")
         ons = [e for e in p.interp.hooks.events if e[0] == "on_enable"]
-        ctx.require(len(ons) == (1 if active is not None else 0) and (not ons or ons[0][1] is active), "C14.O4", "on_enable delivered once, to the active mode", f"on_enable is delivered {len(ons)} times / to a mode that is not the active one", site=site("_on_autonomous_enable"), key="C14.O4|enable")
+        ctx.require(len(ons) == (1 if active is not None else 0) and (not ons or ons[0][1] is active), "C14.O4", "on_enable delivered once, to the active mode", f"on_enable is delivered {len(ons)} times / to a mode that is not the active one", site=site("start"), key="C14.O4|enable")
     ctx.floor("selection paths", n4, 6)
 
     # ---- M1 closure over start / periodic / disable
